@@ -29,6 +29,7 @@ type Event struct {
 	Tip  string   `json:"tip,omitempty"` // Manager.Tip right after the call (under the recorder's lock)
 	Sok  bool     `json:"sok"`           // AddValidated: every supplied state equals the oracle's true state
 	N    int      `json:"n"`             // AddV2Pool: number of transactions
+	Inflight int  `json:"inflight"`      // Idle: sum of the per-subnet in-flight RPC counters while no handler is running
 	Bk   bool     `json:"bk"`            // AddV2Pool: basis block is known to the manager
 	Who  string   `json:"who,omitempty"` // Ban: role of the banned address (honest:<name> | byz:<name> | subnet | unknown)
 	Why  string   `json:"why,omitempty"` // error text / ban reason (not interpreted by the spec)
@@ -265,6 +266,9 @@ type NodeOpts struct {
 	Quiet         bool // SyncInterval = 1h: the node serves but never syncs on its own
 	SyncInterval  time.Duration
 	Timeouts      time.Duration // SendBlocks/SendBlock/relay timeouts (0: 3s)
+	MaxInflightSubnet int       // WithMaxInflightRPCsPerSubnet (0: default 256)
+	MaxInflight       int       // WithMaxInflightRPCs, the per-peer cap (0: default 64)
+	SubnetV4Bits      int       // WithInflightRPCSubnetPrefixes(bits, 48) (0: default /32)
 }
 
 // A Node is a real syncer.Syncer over a real chain.Manager, with recorders.
@@ -379,6 +383,15 @@ func NewNode(w *World, o NodeOpts, start time.Time, roles func(string) string) (
 	}
 	if o.MaxSendBlocks != 0 {
 		opts = append(opts, syncer.WithMaxSendBlocks(o.MaxSendBlocks))
+	}
+	if o.MaxInflightSubnet != 0 {
+		opts = append(opts, syncer.WithMaxInflightRPCsPerSubnet(o.MaxInflightSubnet))
+	}
+	if o.MaxInflight != 0 {
+		opts = append(opts, syncer.WithMaxInflightRPCs(o.MaxInflight))
+	}
+	if o.SubnetV4Bits != 0 {
+		opts = append(opts, syncer.WithInflightRPCSubnetPrefixes(o.SubnetV4Bits, 48))
 	}
 	if o.MaxInbound != 0 {
 		opts = append(opts, syncer.WithMaxInboundPeers(o.MaxInbound))
@@ -505,4 +518,31 @@ func (n *Node) Audit() error {
 		return fmt.Errorf("tip state differs from the linear twin's at %v", a.Index)
 	}
 	return nil
+}
+
+// InflightAtRest audits the accounting contract of the per-subnet in-flight RPC budget: a counter is
+// the number of RUNNING inbound handlers of that subnet, always -- so once the network is quiet (every
+// peer synced, no announcements, scripted peers gone) every counter must be back to 0, whatever mix of
+// accepted, rejected-over-budget and erroring RPCs went before.  Read through the verif hook
+// syncer.VerifInflightSubnet.  Polls up to max for the handlers still running to finish.
+func (n *Node) InflightAtRest(max time.Duration) (map[string]int, int) {
+	end := time.Now().Add(max)
+	for {
+		m := n.S.VerifInflightSubnet()
+		sum := 0
+		for _, v := range m {
+			sum += v
+		}
+		if sum == 0 || time.Now().After(end) {
+			return m, sum
+		}
+		time.Sleep(50 * time.Millisecond)
+	}
+}
+
+// RecordIdle logs the audit into the node's trace (SyncTrace: an Idle event must carry 0).
+func (n *Node) RecordIdle(sum int) {
+	n.Rec.mu.Lock()
+	n.Rec.emit(Event{Op: "Idle", Inflight: sum, Tip: n.W.Name(n.CM.Tip().ID)})
+	n.Rec.mu.Unlock()
 }
